@@ -3,7 +3,9 @@
   Ops (both signednesses unless noted; `a`, `b`, `mn`, `mx` hex patterns):
     inherent const fns : eq a b | ne a b | lt a b | le a b | gt a b | ge a b | cmp a b | min a b
                          | max a b | clamp a mn mx
-    trait / operators  : partial_cmp a b | op_eq a b (`==`, derived PartialEq) | op_ne a b (`!=`)
+    trait / operators  : ord_cmp a b | ord_min a b | ord_max a b | ord_clamp a mn mx (`Ord` methods;
+                         bnum overrides max/min/clamp to forward to the inherent fns)
+                         | partial_cmp a b | op_eq a b (`==`, derived PartialEq) | op_ne a b (`!=`)
                          | op_lt a b (`<`) | op_le a b | op_gt a b | op_ge a b
                          | hash_eq a b   (do `a` and `b` feed the hasher the same input?)
     signed only        : signum a | is_positive a | is_negative a
@@ -44,6 +46,17 @@ def handle : Handler := fun c op args =>
   | "gt", [a, b] => bin (fun a b => showBool (CmpImpl.gt cm a b)) (fun x y => showBool (x > y)) a b
   | "ge", [a, b] => bin (fun a b => showBool (CmpImpl.ge cm a b)) (fun x y => showBool (x ≥ y)) a b
   | "cmp", [a, b] => bin (fun a b => showOrd (cm a b)) (fun x y => showOrd (compare x y)) a b
+  | "ord_cmp", [a, b] =>
+    bin (fun a b => showOrd (Traits.ordCmp cm a b)) (fun x y => showOrd (compare x y)) a b
+  | "ord_min", [a, b] =>
+    bin (fun a b => showVal c (Traits.ordMin cm a b)) (fun x y => showInt c (if x ≤ y then x else y)) a b
+  | "ord_max", [a, b] =>
+    bin (fun a b => showVal c (Traits.ordMax cm a b)) (fun x y => showInt c (if x ≤ y then y else x)) a b
+  | "ord_clamp", [a, mn, mx] => do
+    let a ← parseVal c a; let mn ← parseVal c mn; let mx ← parseVal c mx
+    let x := valOf c a; let lo := valOf c mn; let hi := valOf c mx
+    some (showOut (showVal c) (Traits.ordClamp cm a mn mx),
+      if lo > hi then "P" else showInt c (Spec.clampV x lo hi))
   | "partial_cmp", [a, b] =>
     bin (fun a b => showOpt showOrd (Traits.partialCmp cm a b))
         (fun x y => showOpt showOrd (some (compare x y))) a b
